@@ -208,10 +208,58 @@ def _check(case):
     return (nontrivial, fp, None)
 
 
+def _check_single(case):
+    """direct run-time contract of generate_single_bootstrap_sample: every resample has exactly n rows, each a row of the data, and over many seeds EVERY data
+    row is drawn (first, middle and last alike) - also when some columns contain NaN; group rows keep their columns together (whole rows are drawn)"""
+    import pandas as pd
+    from fairlearn.metrics._annotated_metric_function import AnnotatedMetricFunction
+    from fairlearn.metrics._bootstrap import generate_single_bootstrap_sample
+    n, with_nan, seed0 = case
+    fp = fingerprint(case)
+    ids = np.arange(100, 100 + n)
+    yp = ids.astype(float) * 2.0
+    if with_nan:
+        yp[[0, n - 1] if n > 1 else [0]] = np.nan
+    df = pd.DataFrame({"y_true": ids, "y_pred": yp, "sf": ["g%d" % (i % 2) for i in range(n)]})
+    seen_rows, sizes, bad_pair = set(), [], []
+
+    def rec(y_true, y_pred):
+        for t, p in zip(y_true, y_pred):
+            seen_rows.add(int(t))
+            if not (p == 2.0 * t or (with_nan and p != p)):
+                bad_pair.append((int(t), float(p)))
+        return len(y_true)
+    amf = AnnotatedMetricFunction(func=rec, name="rec", positional_argument_names=["y_true", "y_pred"])
+    draws = 40 + 40 * n
+    for s_ in range(seed0, seed0 + draws):
+        seen_rows_before = len(seen_rows)
+        try:
+            r = generate_single_bootstrap_sample(random_state=s_, data=df, annotated_functions={"rec": amf}, sensitive_feature_names=["sf"], control_feature_names=None)
+        except Exception as ex:
+            return (True, fp, ("C18:single-sample:raises", f"generate_single_bootstrap_sample raised {type(ex).__name__}: {ex} [n={n} NaN cells={with_nan} seed={s_}]"[:300],
+                               {"n": n, "with_nan": with_nan, "random_state": s_}))
+        sizes.append(int(r.overall["rec"]))
+        if sizes[-1] != n:
+            return (True, fp, ("C18:single-sample:row-count", f"a resample of {n} data rows has {sizes[-1]} rows (random_state={s_}, NaN cells in the data: {with_nan})",
+                               {"n": n, "with_nan": with_nan, "random_state": s_, "rows_in_resample": sizes[-1]}))
+    if bad_pair:
+        return (True, fp, ("C18:single-sample:rows-not-kept-together", f"a resampled row pairs y_true with another row's y_pred: {bad_pair[:3]}", {"n": n, "pairs": bad_pair[:5]}))
+    missing = sorted(set(int(i) for i in ids) - seen_rows)
+    if missing:
+        return (True, fp, ("C18:single-sample:row-never-drawn", f"data row(s) with id {missing} (positions {[m - 100 for m in missing]} of {n}) were never drawn in {draws} resamples "
+                           f"(probability of that under uniform resampling < 1e-15)", {"n": n, "with_nan": with_nan, "never_drawn_positions": [m - 100 for m in missing], "resamples": draws}))
+    return (True, fp, None)
+
+
 def run_bounded(rep):
     rep.assume("A2", "A7")
     reps = 2 if rep.tier == "quick" else 16
     cases = [(lay, m, nb, ql, rep.seed * 1000 + r) for lay, m, nb, ql in itertools.product(LAYOUTS, METRICS, NBOOT, QLISTS) for r in range(reps)]
+    single = [(n, nan, rep.seed * 7919 + 13 * n) for n in (1, 2, 3, 5, 8) for nan in (False, True)]
+    run_cases(rep, "single_resample_rtc",
+              rule="generate_single_bootstrap_sample called directly with a recording metric: n in {1,2,3,5,8} rows x (no NaN | NaN in the prediction column of the first and last row), "
+                   "40+40n integer seeds each: n rows per resample, rows kept together, every data row drawn at least once", bound="n <= 8, <= 360 seeds", cases=single,
+              check_case=_check_single, exhaustive=False)
     run_cases(rep, "bootstrap_ci_rtc",
               rule="full grid layout (sensitive,control) %s x metrics %s x n_boot %s x ci_quantiles %s, %d seeded datasets of 4..12 rows per grid point "
                    "(2-3 values per feature, groups vanish from resamples); checks: list/shape/type/index, order in q, reproducibility, row count, constant "
